@@ -212,4 +212,17 @@ theorem interleaved_not_inv (x : ISt) (h : irun 1 ctx "W2" ["A2"] x0 evs = some 
 
 theorem run_some : (irun 1 ctx "W2" ["A2"] x0 evs).isSome = true := by decide
 
+theorem own_nodup : KeysNodup own := by unfold KeysNodup; decide
+
+/-- the full interleaving statement is FALSE of the model: this history meets every hypothesis -/
+theorem not_interleavedProjects : ¬ InterleavedProjects := by
+  intro h
+  cases hr : irun 1 ctx "W2" ["A2"] x0 evs with
+  | none => have := run_some; rw [hr] at this; cases this
+  | some x =>
+    obtain ⟨hfin, _, hnot⟩ := interleaved_not_inv x hr
+    exact hnot (h 1 ctx "W2" ["A2"] own' g x0 x evs ["W1"] (by decide) own_nodup remHyp goodA rfl rfl rfl rfl
+      inv_stF stF_nodup stF_unspent_nodup stF_pend stF_flagged others_ready evs_ok
+      (by intro y hy; simp at hy; subst hy; decide) hr hfin)
+
 end MW.Lemmas.RemoveMidCex
